@@ -190,6 +190,9 @@ pub fn corpus() -> &'static Vec<Value> {
 }
 
 pub fn replay(ctx: &Arc<Ctx>, v: &Value) {
+    if crate::cold::replay(ctx, v) {
+        return;
+    }
     let c: Case = serde_json::from_value(v.clone()).expect("C03 case");
     eval(ctx, &c);
 }
@@ -282,4 +285,5 @@ pub fn run(ctx: &Arc<Ctx>) {
         Guard::Done(Ok(s)) if hex::encode(&s) == want => ctx.outcome("ok/annex-A"),
         other => ctx.violation("Sm2PrivateKey::sign", "annex-A-example", gdbg(&other), json!({"Sign": {"d": ANNEX_D, "id": null, "msg_len": 14, "msg_class": "annex", "k": ANNEX_K, "tag": "annex"}})),
     }
+    crate::cold::check(ctx, "C03");
 }
